@@ -88,11 +88,14 @@ def checkScenarioCore (evs : List Ev) : List String × Nat := Id.run do
         | _ => pure ()
       -- C20: the registry is a map: a key cannot be deleted twice without being added in between
       let apiRets := evs.filter fun e => e.peer == p && e.ev == "api.ret" && (e.arg 0 == "DeletePeer" || e.arg 0 == "AddPeer" || e.arg 0 == "AddPeer2" || e.arg 0 == "AddPeerN") && e.arg 1 == "ok"
-      for (a, b) in apiRets.zip (apiRets.drop 1) do
-        if a.arg 0 == "DeletePeer" && b.arg 0 == "DeletePeer" then
-          fails := fails ++ ["C20 two DeletePeer calls of the same key both succeeded (one must return ErrPeerNotExist)"]
-        if a.arg 0 != "DeletePeer" && b.arg 0 != "DeletePeer" then
-          fails := fails ++ ["C20 two AddPeer calls of the same key both succeeded (one must return ErrPeerAlreadyExists)"]
+      -- (the returns of concurrent calls are not logged in the order the calls took effect: judged by counting — for one
+      -- key the successful adds and deletes alternate, whatever the order)
+      let nAdd := (apiRets.filter fun e => e.arg 0 != "DeletePeer").length
+      let nDel := (apiRets.filter fun e => e.arg 0 == "DeletePeer").length
+      if nDel > nAdd then
+        fails := fails ++ ["C20 more DeletePeer calls of one key succeeded than AddPeer calls (one must return ErrPeerNotExist)"]
+      if nAdd > nDel + 1 then
+        fails := fails ++ ["C20 two AddPeer calls of the same key both succeeded with no DeletePeer between them (one must return ErrPeerAlreadyExists)"]
       -- C01: GetCapabilities once per OPEN sent, before it; OnOpenMessage at most once per connection
       let nOpens := (conns.filter fun c => match (Spec.parseStream c.outbound).1.head? with | some (1, _) => true | _ => false).length
       let nGetCaps := (cbs.filter (·.name == "GetCapabilities")).length
